@@ -23,7 +23,8 @@ SPEC = {
              "operator yields at least one element; distinct = distinct case description."),
     "shards": {"quick": 16, "thorough": 16},
     "min_counts": {"quick": {"evaluations": 2000, "oracle_evals": 20000, "yields_checked": 5000,
-                             "fresh_defaults_checked": 1000, "identity_checked": 5000, "operands_with_saved_position": 300, "pairs_with_different_defaults": 200},
+                             "fresh_defaults_checked": 1000, "identity_checked": 5000, "operands_with_saved_position": 300, "pairs_with_different_defaults": 200,
+                             "nary_with_uformat_operands": 300, "uformat_leaders": 50},
                    "thorough": {"evaluations": 20000, "oracle_evals": 200000}},
     "assumptions": [
         "ordered/unique fibers only; integer or tuple coordinates",
@@ -110,7 +111,9 @@ def _random_case(rng):
                 "specs": [gen.rand_leaf_spec(rng, ext, rng.choice([0.3, 0.6, 0.9]), 0.15, default) for _ in range(k)],
                 "default": default, "setting": rng.choice(["free", "tensor"]),
                 # operands that were used before: a saved search position left by an earlier operation
-                "saved": [rng.randint(0, ext) for _ in range(k)] if rng.random() < 0.5 else None}
+                "saved": [rng.randint(0, ext) for _ in range(k)] if rng.random() < 0.5 else None,
+                # operands whose rank is declared uncompressed present every coordinate of their active range
+                "ufmt": [rng.random() < 0.5 for _ in range(k)] if rng.random() < 0.35 else None, "shape": ext + rng.randint(0, 2)}
     # tuple coordinates
     ka, kb = rng.choice([(2, 2), (1, 2), (2, 1), (2, 3), (3, 2), (0, 2), (2, 0), (3, 3)])
     return {"kind": "tuple", "ka": ka, "kb": kb, "a": _tuple_spec(rng, ka, default), "b": _tuple_spec(rng, kb, default),
@@ -330,7 +333,14 @@ def _run_pair(case, mon):
 def _run_nary(case, mon):
     d = case["default"]
     op = case["op"]
-    if case["setting"] == "tensor":
+    fm = ["U" if u else "C" for u in case["ufmt"]] if case.get("ufmt") else ["C"] * len(case["specs"])
+    if case.get("ufmt"):
+        owners = [gen.tensor_from_spec(s, ["K"], shape=[case["shape"]], default=d, fmts=[f]) for s, f in zip(case["specs"], fm)]
+        fibers = [t.getRoot() for t in owners]
+        mon.count("nary_with_uformat_operands")
+        if fm[0] == "U" and case["op"] == "leader-follower":
+            mon.count("uformat_leaders")
+    elif case["setting"] == "tensor":
         owners = [gen.tensor_from_spec(s, ["K"], default=d) for s in case["specs"]]
         fibers = [t.getRoot() for t in owners]
     else:
@@ -346,12 +356,12 @@ def _run_nary(case, mon):
     ids = {}
     for x in watched:
         ids.update(idset(x))
-    pres = [_present(f, d, "C") for f in fibers]
+    pres = [_present(f, d, fm[i] if (op != "leader-follower" or i == 0) else "C") for i, f in enumerate(fibers)]
     sets = [set(c for c, _ in p) for p in pres]
     maps = [dict(p) for p in pres]
     k = len(fibers)
     what = f"{op}/{k}"
-    cap = sum(len(f.coords) for f in fibers) + 2
+    cap = sum(max(len(f.coords), len(pr)) for f, pr in zip(fibers, pres)) + 2
     try:
         if op == "intersection":
             res = Fiber.intersection(*fibers)
@@ -383,7 +393,11 @@ def _run_nary(case, mon):
                 mon.check(unbox(v[0]) == want, f"{op}:mask", f"{what} at {c}: mask {v[0]!r} expected {want!r}")
                 v = v[1:]
             for i in range(k):
-                if c in sets[i]:
+                if c in sets[i] and maps[i][c] is None:
+                    # a coordinate an uncompressed operand presents without storing it: a default
+                    mon.check(not isinstance(unbox(v[i]), Fiber) and unbox(v[i]) == d, f"{op}:absent-default-value",
+                              f"{what} at {c}: operand {i} (uncompressed, nothing stored there) delivered {v[i]!r}")
+                elif c in sets[i]:
                     mon.count("identity_checked")
                     mon.check(v[i] is maps[i][c], f"{op}:payload-identity",
                               f"{what} at {c}: payload {i} is not operand {i}'s stored object")
